@@ -24,6 +24,13 @@ def extended_class(cls):
             """A read-only extra property."""
             return "ro"
 
+        def undocumented(self, n: int = 1) -> int:
+            return n
+
+        @property
+        def bare_prop(self) -> int:
+            return 3
+
         def _hidden(self) -> None:
             """Not public."""
 
